@@ -30,7 +30,11 @@ Digits  == {"0","1"}
 Openers == {"(","[","{"}
 Closers == {")","]","}"}
 Quotes  == {"'","\""}
-W(c) == IF c = "U2" THEN 2 ELSE IF c = "U4" THEN 4 ELSE 1
+\* keyword symbols: one symbol standing for a whole reserved word (so that small alphabets reach
+\* grammatical, indented programs): KIF = "if", KELSE = "else", KPASS = "pass", KDEF = "def"
+Keywords == {"KIF","KELSE","KPASS","KDEF"}
+KwTok(c) == IF c = "KIF" THEN "if" ELSE IF c = "KELSE" THEN "else" ELSE IF c = "KDEF" THEN "def" ELSE "pass"
+W(c) == IF c = "U2" THEN 2 ELSE IF c = "U4" THEN 4 ELSE IF c = "KIF" THEN 2 ELSE IF c = "KDEF" THEN 3 ELSE IF c \in {"KELSE","KPASS"} THEN 4 ELSE 1
 
 RECURSIVE OffTo(_,_)
 \* byte offset of symbol number i (1-based); OffTo(S, Len(S)+1) = size of the file in bytes
@@ -141,6 +145,9 @@ Scan(S,s) ==
     [] c \in Closers -> (IF s.depth = 0 THEN Err(s,"unbalanced")
                          ELSE Scan(S,[Emit(s,T(c,S,i,i+1),i+1) EXCEPT !.depth = @ - 1]))
     [] c \in Quotes  -> Scan(S,String(S,s,i,i,FALSE,"str"))
+    [] c \in Keywords ->      \* a reserved word (only generated where no letter or digit adjoins it)
+         (IF Ch(S,i+1) \in Letters \cup Digits \cup Keywords THEN Err(s,"keyword_glued")
+          ELSE Scan(S,Emit(s,T(KwTok(c),S,i,i+1),i+1)))
     [] c \in Letters ->
          (LET j == Run(S,i)
               pre == SubSeq(S,i,j-1) IN
